@@ -18,10 +18,13 @@ class EngB:
             hp, bp, info = s.u.gen(tag, only=only, uf=uf, uffunc=uffunc, ubcheck=ubcheck)
             s.vars[tag] = (hp, bp, info)
             s.chk.functions.update({k: '%d IR instructions' % v for k, v in info['functions'].items()})
+            for k, v in info.get('skipped', {}).items():
+                ent = '%s: %s' % (k, v)
+                if ent not in s.chk.not_encodable: s.chk.not_encodable.append(ent)
             for st in info['stubs']:
                 if st not in s.chk.stubs: s.chk.stubs.append(st)
             if s.validate and not uf and not uffunc and not ubcheck:
-                natval.validate(s.chk, s.u, hp, bp, funcs=only, **s.vopts)
+                natval.validate(s.chk, s.u, hp, bp, funcs=[r for r in info['roots']], **s.vopts)
         return s.vars[tag]
 
     def real(s):
